@@ -2,6 +2,7 @@ package util
 
 import (
 	"net/http"
+	"strings"
 
 	middlewareapi "github.com/oauth2-proxy/oauth2-proxy/v7/pkg/apis/middleware"
 )
@@ -39,6 +40,17 @@ func GetRequestURI(req *http.Request) string {
 	if !IsProxied(req) || uri == "" {
 		// Use RequestURI to preserve ?query
 		uri = req.URL.RequestURI()
+	}
+	return uri
+}
+
+// GetRequestPath returns the path component of the request URI (or of
+// X-Forwarded-Uri if present and the request was proxied): the query string
+// and fragment are stripped.
+func GetRequestPath(req *http.Request) string {
+	uri := GetRequestURI(req)
+	if idx := strings.IndexAny(uri, "?#"); idx != -1 {
+		uri = uri[:idx]
 	}
 	return uri
 }
